@@ -276,7 +276,9 @@ fn run_user<F: Send + 'static>(
             "wait" => {
                 uemit(json!({"ev": "u_call", "cmd": "wait"}));
                 let ms = op["ms"].as_u64().unwrap_or(10);
-                match sampler.wait_timeout(Duration::from_millis(ms)) {
+                // "max": wait without a practical limit (the largest Duration)
+                let timeout = if op["max"] == true { Duration::MAX } else { Duration::from_millis(ms) };
+                match sampler.wait_timeout(timeout) {
                     SamplerWaitResult::Timeout(s) => {
                         uemit(json!({"ev": "u_ret", "cmd": "wait", "res": "timeout"}));
                         sampler = s;
